@@ -1117,3 +1117,55 @@ M("M82", "is_txtpp_file only looks at the last extension (foo.txtpp.ext no longe
                     None => false,
                 }""", """                false""")],
   {"C11": ["R11.6"]})
+M("N30", "add_line: starts_with + slice -> strip_prefix (equivalent)",
+  [(DADD, """        if line.starts_with(&self.whitespaces) {
+            let line = &line[self.whitespaces.len()..];""", """        if let Some(line) = line.strip_prefix(self.whitespaces.as_str()) {""")],
+  {})
+M("N31", "clean-mode handling moved from execute_directive into the line loop, tail line still re-queued",
+  [(PP, """                IterDirectiveResult::Execute(d, line) => {
+                    let whitespaces = d.whitespaces.clone();""", """                IterDirectiveResult::Execute(d, line) => {
+                    if let Mode::Clean = self.mode {
+                        // Errors are ignored in clean mode
+                        let _ = self.execute_in_clean_mode(d);
+                        self.execute_tail_line = line;
+                        continue;
+                    }
+                    let whitespaces = d.whitespaces.clone();"""),
+   (PP, """        if let Mode::Clean = self.mode {
+            // Ignore error if in clean mode
+            let _ = self.execute_in_clean_mode(d);
+            return Ok(None);
+        }
+        let d = match self.execute_in_collect_deps_mode(d)? {""", """        let d = match self.execute_in_collect_deps_mode(d)? {""")],
+  {})
+M("M83", "clean-mode handling moved into the line loop and the terminating line is dropped (seeded by an independent agent: C07)",
+  [(PP, """                IterDirectiveResult::Execute(d, line) => {
+                    let whitespaces = d.whitespaces.clone();""", """                IterDirectiveResult::Execute(d, line) => {
+                    if let Mode::Clean = self.mode {
+                        // Errors are ignored in clean mode
+                        let _ = self.execute_in_clean_mode(d);
+                        continue;
+                    }
+                    let whitespaces = d.whitespaces.clone();"""),
+   (PP, """        if let Mode::Clean = self.mode {
+            // Ignore error if in clean mode
+            let _ = self.execute_in_clean_mode(d);
+            return Ok(None);
+        }
+        let d = match self.execute_in_collect_deps_mode(d)? {""", """        let d = match self.execute_in_collect_deps_mode(d)? {""")],
+  {"C16": ["R16.4"], "C07": ["R07.5"], "C01": ["R01.5"]})
+M("M84", "DepManager: an edge to an already tracked dependency is recorded but not counted (seeded by an independent agent: C02)",
+  [(DEP, """            let dependers = self.in_edges.entry(dependency.clone()).or_default();
+            // add depender -> dependency edge
+            if dependers.insert(depender.clone()) {
+                *dependency_count += 1;
+            }
+            added = true;""", """            added = true;
+            if let Some(dependers) = self.in_edges.get_mut(dependency) {
+                dependers.insert(depender.clone());
+                continue;
+            }
+            self.in_edges
+                .insert(dependency.clone(), HashSet::from([depender.clone()]));
+            *dependency_count += 1;""")],
+  {"C02": ["R02.8"]})
